@@ -28,7 +28,7 @@ PROP = dict(
     extra=[lambda run: run.query_mode("c17", n=(3000 if run.tier == "quick" else 60000))],
     technique="run-time check of the real code (bounded); with the scanners and parse functions proved total (only QueryParseException) and terminating against contracts",
     explanation="deductive (name resolution, leaves): QVariable.interpret raises QueryInterpretException exactly when the name is not bound and nothing else; QInteger / QString.interpret raise nothing; get_return raises QueryParseException exactly when RETURN was never assigned (arity and argument-type resolution - QFunction.interpret, the decorators of functions.py - stay bounded).  deductive (parsing): a dict / list token is a complete bracketed text (an unclosed literal is no token), a parsed statement holds an '='; for every string, the six scanners (X.check), _parse_token, the six X.parse functions and parse(statement) raise nothing but QueryParseException - no IndexError from indexing an emptied string, no ValueError from int() (a QInteger token consists of str.isdecimal characters, which int() accepts), no AttributeError from a missing token class - and terminate: every `for` runs over a finite string, every `while` strictly shortens its remaining text, and the mutually recursive parse functions are called on a strictly shorter text (measure len(string)); parse() is proved for the stripped, non-empty statements query() hands it. Character classes and str.strip are uninterpreted apart from the facts stated in T-UNICODE; Python's recursion limit is not modelled (A-STACK: nesting depth ~1000 is outside the property's input domain). Interpretation (name/arity/type resolution, aw_query/functions.py) is only bounded. " 
-                "bounded: random strings over the token alphabet and valid programs corrupted by deleting, duplicating, swapping or inserting characters are run through aw_query.query with a 2 s limit; the call must terminate and either return or raise an exception of the query-error family, and a text that an independent reference grammar rejects must not yield a value (malformed text is reported as a parse error; the reference is the more permissive parser wherever the two differ, and a string whose closing quote is preceded by a backslash at the end of a statement is accepted by both); any other exception whose innermost frame is in aw_query (outside the body of a built-in) is a violation.",
+                "bounded: random strings over the token alphabet and valid programs corrupted by deleting, duplicating, swapping or inserting characters are run through aw_query.query with a 2 s limit; a table of 34 texts, one per kind of fault the property names and per built-in signature (unknown variable / unknown function / wrong argument count -> QueryInterpretException, wrong type of a top-level argument / unknown bucket -> QueryFunctionException, malformed text -> QueryParseException), must raise exactly the named class; for the generated texts the call must terminate and either return or raise an exception of the query-error family, and a text that an independent reference grammar rejects must not yield a value (malformed text is reported as a parse error; the reference is the more permissive parser wherever the two differ, and a string whose closing quote is preceded by a backslash at the end of a statement is accepted by both); any other exception whose innermost frame is in aw_query (outside the body of a built-in) is a violation.",
 )
 
 F = "/repo/aw_query/query2.py"
